@@ -9,6 +9,11 @@ def cmd(pid, tier):
 
 # id -> (category, engine, technique, level text, level note, design ref)
 CHECKS = {
+ "C17": ("exploration", "ENUM",
+   "bounded-exhaustive enumeration of argument products for a fixed family of macro-generated APIs, called through the generated client stubs over a real WsClient against the generated server in memory",
+   "Four #[rpc(client, server)] traits (0-4 params, trailing Option x1/x2, Option in the middle, param_kind array/map, argument rename, camelCase, aliases, namespaces with separators _ . /, sync/async/blocking, value and error returns, subscriptions with params / Option tail / map kind / overridden notification name / aliases) compiled into the harness; full product of per-type argument alphabets per method; hand-encoded requests for passed/null/omitted trailing optionals under both encodings; every alias and namespaced name. Oracle: arguments recorded by the server impl == client arguments, client result == server return (value or error object), subscription items equal and in order.",
+   "The `programs` quantifier is covered only over this fixed family of declarations (the space of macro inputs is not enumerable by this technique); Option<Option<_>> is excluded.",
+   "DESIGN.md §6 C17"),
  "C11": ("model_checking", "SCHED",
    "stateless DFS over all orders of connection opens/closes/aborts (each a scheduling point) on in-memory HTTP and WebSocket connections sharing one ConnectionGuard; interval-rule monitor against a reference occupancy counter",
    "Limits 0..2 (thorough 3), limit+1..limit+3 connections: HTTP requests being processed (parked handler), keep-alive follow-ups, WebSocket sessions ended by close frame / reset mid-call / with open subscription / protocol violation by a hand-written peer that keeps its socket open / upgrade whose response is never read / HTTP request aborted mid-call / server stop. Certain occupancy never exceeds the limit and agrees with ConnectionGuard::available_connections() seen inside running calls; every 429 must be justified by a possibly full server during the attempt; every ended WebSocket connection must have its session finished by quiescence; no handler runs for a refused request.",
